@@ -421,6 +421,9 @@ def run(pm, ctx):
                   msg='fewer constructor constraints recognised in bv.%s than confirmed by '
                       'reading' % bvc, key='C09-R7|%s|recognised' % fb.qualname)
 
+    ctx.import_rules(pm, 'C02', {'C02-R5'}, 'C09-R10',
+                     'required / optional field listings of the IR are complete, parent first, with '
+                     'complementary predicates (shared with C02-R5)')
     from ..effects import run_decisions
     from ..ownership import OWN
     run_decisions(pm, ctx, 'C09-RD', OWN['C09'])
